@@ -197,10 +197,18 @@ ECDSA_SIG *ECDSA_SIG_new(void)
 	if (nondet_bool()) { g_lib_fail = 1; return NULL; }
 	ECDSA_SIG *s = malloc(sizeof(*s));
 	__CPROVER_assume(s != NULL);
-	s->r = NULL; s->s = NULL; s->derlen = 0;
+	s->r = NULL; s->s = NULL; s->derlen = 0; s->released = 0;
 	return s;
 }
-void ECDSA_SIG_free(ECDSA_SIG *sig) { (void)sig; }
+/* release is recorded on the object (ghost flag) instead of performed (see DESIGN: free() after
+ * writes is intractable under DFCC); a second release or any later use is an error */
+void ECDSA_SIG_free(ECDSA_SIG *sig)
+{
+	if (sig == NULL)
+		return;
+	__CPROVER_assert(!sig->released, "ECDSA_SIG_free: the object has not been released before (double free)");
+	sig->released = 1;
+}
 int ECDSA_SIG_set0(ECDSA_SIG *sig, BIGNUM *r, BIGNUM *s)
 {
 	__CPROVER_assert(sig != NULL && r != NULL && s != NULL, "ECDSA_SIG_set0: all arguments given");
@@ -209,13 +217,13 @@ int ECDSA_SIG_set0(ECDSA_SIG *sig, BIGNUM *r, BIGNUM *s)
 }
 void ECDSA_SIG_get0(const ECDSA_SIG *sig, const BIGNUM **pr, const BIGNUM **ps)
 {
-	__CPROVER_assert(sig != NULL && __CPROVER_r_ok(sig, sizeof(*sig)), "ECDSA_SIG_get0: a valid signature object");
+	__CPROVER_assert(sig != NULL && __CPROVER_r_ok(sig, sizeof(*sig)) && !sig->released, "ECDSA_SIG_get0: a valid, unreleased signature object");
 	if (pr) *pr = sig->r;
 	if (ps) *ps = sig->s;
 }
 int i2d_ECDSA_SIG(const ECDSA_SIG *sig, unsigned char **pp)
 {
-	__CPROVER_assert(sig != NULL && sig->r != NULL && sig->s != NULL, "i2d_ECDSA_SIG: r and s set");
+	__CPROVER_assert(sig != NULL && !sig->released && sig->r != NULL && sig->s != NULL, "i2d_ECDSA_SIG: unreleased object with r and s set");
 	ECDSA_SIG *m = (ECDSA_SIG *)sig;
 	if (m->derlen == 0) {
 		int l = nondet_int();
@@ -242,7 +250,7 @@ ECDSA_SIG *d2i_ECDSA_SIG(ECDSA_SIG **sig, const unsigned char **pp, long len)
 	r->len = r->nbytes = nondet_int(); t->len = t->nbytes = nondet_int();
 	/* a DER integer of a signature: any length the encoding allows */
 	__CPROVER_assume(r->nbytes >= 0 && r->nbytes <= 128 && t->nbytes >= 0 && t->nbytes <= 128);
-	s->r = r; s->s = t; s->derlen = 0;
+	s->r = r; s->s = t; s->derlen = 0; s->released = 0;
 	*pp += len;
 	return s;
 }
